@@ -4,6 +4,12 @@
 import GraphiqModel.Proofs.Convert
 import GraphiqModel.Proofs.StateToGraph
 import GraphiqModel.Proofs.StateToGraphRoundTrip
+import GraphiqModel.Proofs.StateToGraphTotal
+import GraphiqModel.Proofs.StateToGraphGauge
+import GraphiqModel.Proofs.StateToGraphAdjugate
+import GraphiqModel.Proofs.StateToGraphDensity
+import GraphiqModel.Proofs.StateToGraphNegativity
+import GraphiqModel.Proofs.StateToGraphHilbert
 import GraphiqModel.Proofs.GraphStateGroup
 namespace Graphiq.C08
 open Graphiq Graphiq.PRow Graphiq.Tab Graphiq.STab
@@ -39,8 +45,8 @@ theorem state_to_graph_validator_sound (t : STab) (gates : List Gate) (adj : Nat
 theorem wf_inBounds (n : Nat) (g : Gate) (h : g.WF n) : g.inBounds n = true := by
   cases g <;> simp_all [Gate.WF, Gate.inBounds]
 
-/-- **`state_to_graph` is sound** (every n, every input tableau, every candidate GF(2) inverse `inv` — whatever the floating-point
-    `det · inv % 2` of `_graph_finder` evaluates to): whenever the modelled `state_to_graph` returns `(graph, gates)`, the graph is
+/-- **`state_to_graph` is sound** (every n, every input tableau, every candidate GF(2) inverse `inv` — whatever the inverse
+    computation of `_graph_finder` evaluates to, the code re-checks it): whenever the modelled `state_to_graph` returns `(graph, gates)`, the graph is
     simple, the gates are in range, and running them on the input tableau gives a tableau that generates exactly — signs
     included — the signed group of the graph state.  This is the conclusion of `state_to_graph_validator_sound`, now as a theorem
     about the modelled code (`row_reduction`, `_position_finder`, `hadamard_transform`, the two closing assertions of
@@ -82,6 +88,157 @@ theorem state_to_graph_input_is_state (inv : Nat → Adj → Option Adj) (t : ST
   · cases h
   · next g hg => exact (afterLC_of_spec t hreal g (S2G.graphFinderWith_spec inv _ g hg)).good
 
+/-! ### completeness: the modelled `state_to_graph` returns on every stabilizer state -/
+
+/-- **a stabilizer state, as a tableau**: `n` generators that are real (no i-phase), commute pairwise (`Good`) and are linearly
+    independent over GF(2) as rows `[x | z]` (`S2G.Indep`: a GF(2) combination of the rows vanishes only with all coefficients 0).
+    (`−I` is then not in the group: `no_minus_one_of_indep`.) -/
+def IsStabilizerState (t : STab) : Prop := t.Good ∧ S2G.Indep (S2G.XZ.ofSTab t)
+
+/-- **`state_to_graph` is complete** (every n ≥ 1, every stabilizer state; code as repaired in /repo 86ab4f1 (D40), 8a43724 (D49) and
+    70adac4 (D51)): the modelled `state_to_graph` RETURNS a graph and a gate list — none of the assertions of `_graph_finder`
+    ("Stabilizer generators are not independent", "Final Z matrix is not a graph", "Unexpected X matrix"), none of the three closing
+    assertions of `canonical_form` inside `_phase_correction`, and no singular-matrix error fires.
+    Proof: `row_reduction` keeps independence and commutation and leaves the X part in echelon form; the repaired `_position_finder`
+    returns exactly the non-pivot columns; after the Hadamards on them the X part has trivial kernel (rank argument
+    `hadamard_rows_independent`), so the inverse exists and passes the re-check; `final_z = z.T @ x_inv` is symmetric because the rows
+    commute (`X Zᵀ = Z Xᵀ`); after the `P_dag` gates the X part of the canonical form is the identity, so `_phase_correction` inverts
+    the identity.
+    Stated for every inverse computation `inv` that returns a left inverse on every matrix with trivial kernel (`S2G.InvOK`).  The code's
+    own inverse — since 70adac4 the exact Gauss–Jordan elimination `_gf2_inverse`, which the model's `gf2Inv`/`gf2InvF` mirrors step by
+    step — is one (`state_to_graph_exact_complete`): NO floating-point step is left in `state_to_graph`, so this is a theorem about the
+    code's own algorithm (tied to the Python by exact comparison of graph, gates and error class on every generated input).
+    History: the proof was first carried out with the float `np.round(det · inv) % 2` of the code replaced by exact elimination; probing
+    the excluded float step at large n exposed D51 (from ≈ 42 qubits on the float product loses the integers and valid states raised),
+    repaired by replacing the float step by the elimination the theorem is about. -/
+theorem state_to_graph_complete (inv : Nat → Adj → Option Adj) (t : STab) (hn : 0 < t.n) (hinv : S2G.InvOK inv t.n)
+    (hstate : IsStabilizerState t) : ∃ adj gates, S2G.stateToGraphWith inv t = .ok (adj, gates) :=
+  stateToGraphWith_complete inv t hn hinv hstate.1 hstate.2
+
+/-- the instance for the executable model = the code's own `_gf2_inverse` (exact GF(2) elimination), the one compared with the Python on
+    every input -/
+theorem state_to_graph_exact_complete (t : STab) (hn : 0 < t.n) (hstate : IsStabilizerState t) :
+    ∃ adj gates, S2G.stateToGraph t = .ok (adj, gates) :=
+  stateToGraph_complete t hn hstate.1 hstate.2
+
+/-- **`state_to_graph` is totally correct on the model** (completeness + soundness, every n ≥ 1): every stabilizer state is converted to
+    a simple graph and a list of in-range gates that map the state exactly — signs included — onto that graph's state -/
+theorem state_to_graph_correct (t : STab) (hn : 0 < t.n) (hstate : IsStabilizerState t) :
+    ∃ adj gates, S2G.stateToGraph t = .ok (adj, gates) ∧
+      ((t.runCircuit gates).n = t.n ∧ ∀ p, (t.runCircuit gates).Spn p ↔ (graphSTab t.n adj.f).Spn p) ∧
+      gates.all (Gate.inBounds t.n) = true ∧
+      (∀ i j, i < t.n → j < t.n → adj.f i j = adj.f j i) ∧ (∀ i, i < t.n → adj.f i i = false) := by
+  obtain ⟨adj, gates, h⟩ := state_to_graph_exact_complete t hn hstate
+  exact ⟨adj, gates, h, state_to_graph_sound S2G.gf2InvF t hstate.1.real adj gates h⟩
+
+/-- `state_to_graph_exact_complete` with the hypothesis spelled out in primitive terms (no auxiliary definitions): the rows carry no
+    i-phase, their symplectic products vanish pairwise, and a GF(2) combination of the rows `[x | z]` vanishes only trivially -/
+theorem state_to_graph_complete_real_commuting_independent (t : STab) (hn : 0 < t.n)
+    (hreal : ∀ i, i < t.n → (t.row i).ip = false)
+    (hcomm : ∀ i k, i < t.n → k < t.n → PRow.sp t.n (t.row i) (t.row k) = false)
+    (hind : ∀ c : Nat → Bool, (∀ j, j < t.n → parityTo t.n (fun i => c i && (t.row i).x j) = false ∧
+      parityTo t.n (fun i => c i && (t.row i).z j) = false) → ∀ i, i < t.n → c i = false) :
+    ∃ adj gates, S2G.stateToGraph t = .ok (adj, gates) :=
+  state_to_graph_exact_complete t hn ⟨⟨hreal, hcomm⟩, hind⟩
+
+/-! ### the former floating-point lines of `_graph_finder`, read in exact arithmetic (history; the code no longer contains them)
+
+  Until /repo 70adac4 `_graph_finder` read `assert int(np.round(np.linalg.det(x_mat))) % 2 != 0` and
+  `x_inv = (np.round(det(x_mat.T) * inv(x_mat.T)) % 2).astype(int)`.  For an integer matrix `det · inv` is the adjugate, an integer matrix;
+  `S2G.adjInv` is that reading (`none` = the assertion fires).  Proved: with it the conversion is complete and returns exactly what the
+  Gauss–Jordan elimination returns — so the repair did not change any result the old code could compute correctly; what the old code
+  could not do is evaluate `det · inv` within 1/2 in floating point (D49: truncation; D51: from ≈ 42 qubits on the integers are lost). -/
+
+/-- **the determinant assertion cannot fire in exact arithmetic** (every n ≥ 1, every stabilizer state): the integer determinant of
+    `x_mat` after `row_reduction` and the Hadamards chosen by the repaired `_position_finder` is odd (so is that of `x_mat.T`) -/
+theorem determinant_assertion_holds_exactly (t : STab) (hn : 0 < t.n) (hstate : IsStabilizerState t) :
+    (S2G.intMat t.n (S2G.xAfterHadamards (S2G.XZ.ofSTab t))).det % 2 = 1 ∧
+    (S2G.intMat t.n (S2G.transpose (S2G.xAfterHadamards (S2G.XZ.ofSTab t)))).det % 2 = 1 :=
+  have h := S2G.det_xAfterHadamards_odd (S2G.XZ.ofSTab t) hn (comm_ofSTab t hstate.1) hstate.2
+  ⟨h.2, h.1⟩
+
+/-- the adjugate reduced mod 2 is a correct GF(2) inverse on every matrix with trivial kernel, and it is entry by entry the matrix the
+    executable model computes by Gauss–Jordan elimination -/
+theorem exact_det_inv_is_the_model_inverse (n : Nat) :
+    S2G.InvOK S2G.adjInv n ∧
+    ∀ A, S2G.Inj n A → ∃ M M', S2G.adjInv n A = some M ∧ S2G.gf2InvF n A = some M' ∧ ∀ i j, i < n → j < n → M i j = M' i j :=
+  ⟨S2G.adjInv_ok n, fun A h => S2G.adjInv_eq_gf2InvF n A h⟩
+
+/-- **`state_to_graph` with the exact-arithmetic `det · inv % 2` is the executable model** (every n ≥ 1, every stabilizer state): same
+    graph, same gate list; in particular it returns and is exact (`state_to_graph_correct`) -/
+theorem state_to_graph_exact_arithmetic (t : STab) (hn : 0 < t.n) (hstate : IsStabilizerState t) :
+    S2G.stateToGraphWith S2G.adjInv t = S2G.stateToGraph t :=
+  stateToGraphWith_adjInv t hn hstate.1 hstate.2
+
+/-- **`state_to_graph` returns exactly on the stabilizer states** (tableaux without i-phase): the modelled conversion returns a result
+    iff `n ≥ 1` and the rows commute pairwise and are linearly independent.  (⇐ is `state_to_graph_exact_complete`; ⇒: the re-check
+    `x_inv @ x.T = I` certifies that the X part after the Hadamards is invertible, so the rows were independent, and symmetry of
+    `final_z` forces commutation.) -/
+theorem state_to_graph_returns_iff_state (t : STab) (hreal : ∀ i, i < t.n → (t.row i).ip = false) :
+    (∃ r, S2G.stateToGraph t = .ok r) ↔ (0 < t.n ∧ IsStabilizerState t) := by
+  constructor
+  · rintro ⟨r, h⟩
+    have hgood := state_to_graph_input_is_state S2G.gf2InvF t hreal r h
+    unfold S2G.stateToGraph S2G.stateToGraphWith at h
+    split at h
+    · cases h
+    · next g hg =>
+      have spec := S2G.graphFinderWith_spec S2G.gf2InvF _ g hg
+      exact ⟨spec.n_pos, hgood, S2G.indep_of_gfspec _ g spec⟩
+  · rintro ⟨hn, hs⟩
+    obtain ⟨adj, gates, h⟩ := state_to_graph_exact_complete t hn hs
+    exact ⟨(adj, gates), h⟩
+
+/-- **the returned gates are single-qubit gates** (every n, every input, every candidate inverse): the list is
+    `H` on distinct qubits, then `P_dag` on distinct qubits, then `Z` on distinct qubits, all below `n` — no two-qubit gate.  With
+    `state_to_graph_sound` this says that the returned graph state is LOCAL-Clifford equivalent to the input state. -/
+theorem state_to_graph_gates_are_local (inv : Nat → Adj → Option Adj) (t : STab)
+    (hreal : ∀ i, i < t.n → (t.row i).ip = false) (adj : BMat) (gates : List Gate)
+    (h : S2G.stateToGraphWith inv t = .ok (adj, gates)) :
+    ∃ hpos pdag zs : List Nat, gates = hpos.map Gate.H ++ pdag.map Gate.Pdag ++ zs.map Gate.Z ∧
+      hpos.Nodup ∧ pdag.Nodup ∧ zs.Nodup ∧ (∀ q, q ∈ hpos → q < t.n) ∧ (∀ q, q ∈ pdag → q < t.n) ∧ (∀ q, q ∈ zs → q < t.n) := by
+  obtain ⟨hpos, pdag, zs, e, h1, h2, h3⟩ := stateToGraphWith_gates inv t adj gates h
+  obtain ⟨wf, _⟩ := stateToGraphWith_sound inv t hreal adj gates h
+  refine ⟨hpos, pdag, zs, e, h1, h2, h3, fun q hq => ?_, fun q hq => ?_, fun q hq => ?_⟩
+  · exact wf (Gate.H q) (by rw [e]; simp [hq])
+  · exact wf (Gate.Pdag q) (by rw [e]; simp [hq])
+  · exact wf (Gate.Z q) (by rw [e]; simp [hq])
+
+/-- **every stabilizer state is local-Clifford equivalent to the graph state `state_to_graph` returns** (every n ≥ 1): there is a list
+    of single-qubit `H` / `P_dag` / `Z` gates — the one the modelled conversion returns — that maps the state exactly onto `|G⟩` -/
+theorem state_to_graph_lc_equivalent (t : STab) (hn : 0 < t.n) (hstate : IsStabilizerState t) :
+    ∃ (adj : BMat) (hpos pdag zs : List Nat),
+      S2G.stateToGraph t = .ok (adj, hpos.map Gate.H ++ pdag.map Gate.Pdag ++ zs.map Gate.Z) ∧
+      (∀ q, q ∈ hpos ++ pdag ++ zs → q < t.n) ∧
+      (∀ p, (t.runCircuit (hpos.map Gate.H ++ pdag.map Gate.Pdag ++ zs.map Gate.Z)).Spn p ↔ (graphSTab t.n adj.f).Spn p) := by
+  obtain ⟨adj, gates, h, hs, _⟩ := state_to_graph_correct t hn hstate
+  obtain ⟨hpos, pdag, zs, e, _, _, _, b1, b2, b3⟩ := state_to_graph_gates_are_local S2G.gf2InvF t hstate.1.real adj gates h
+  subst e
+  refine ⟨adj, hpos, pdag, zs, h, fun q hq => ?_, hs.2⟩
+  simp only [List.mem_append] at hq
+  rcases hq with (hq | hq) | hq
+  · exact b1 q hq
+  · exact b2 q hq
+  · exact b3 q hq
+
+/-- **state → graph → state round trip** (every n, every input, every candidate inverse): running the returned gate list BACKWARDS
+    (`run_circuit(reverse=True)`: reversed order, `P ↔ P_dag`) on `graph_to_stabilizer` of the returned graph gives back the
+    input state — the same signed group -/
+theorem state_round_trip (inv : Nat → Adj → Option Adj) (t : STab) (hreal : ∀ i, i < t.n → (t.row i).ip = false)
+    (adj : BMat) (gates : List Gate) (h : S2G.stateToGraphWith inv t = .ok (adj, gates)) :
+    ∀ p, ((graphSTab t.n adj.f).runCircuit (revCirc gates)).Spn p ↔ t.Spn p := by
+  obtain ⟨wf, s, hsym, _⟩ := stateToGraphWith_sound inv t hreal adj gates h
+  have hg := state_to_graph_input_is_state inv t hreal (adj, gates) h
+  have r := runCircuit_rev_spanEq t (graphSTab t.n adj.f) gates wf hg (graphSTab_good t.n adj.f hsym) s
+  exact fun p => ⟨r.sub p, r.sup p⟩
+
+/-- … and on every stabilizer state the round trip is defined (completeness) and returns the state -/
+theorem state_round_trip_total (t : STab) (hn : 0 < t.n) (hstate : IsStabilizerState t) :
+    ∃ adj gates, S2G.stateToGraph t = .ok (adj, gates) ∧
+      ∀ p, ((graphSTab t.n adj.f).runCircuit (revCirc gates)).Spn p ↔ t.Spn p := by
+  obtain ⟨adj, gates, h⟩ := state_to_graph_exact_complete t hn hstate
+  exact ⟨adj, gates, h, state_round_trip S2G.gf2InvF t hstate.1.real adj gates h⟩
+
 /-- non-vacuity: the Bell state `⟨XX, −ZZ⟩` is converted (one Hadamard, one sign-fixing `Z`) to the graph `0 – 1` -/
 def bellMinus : STab :=
   { n := 2, row := fun i => if i = 0 then ⟨fun j => decide (j < 2), fun _ => false, false, false⟩
@@ -97,6 +254,44 @@ example : (match S2G.stateToGraph (STab.zero 1) with
     | .ok (adj, gates) => adj.bits == "0" && gates == [Gate.H 0]
     | .error _ => false) = true := by decide +kernel
 
+/-- non-vacuity of `state_to_graph_complete`: the one-qubit `|0⟩ = ⟨+Z⟩` is a stabilizer state in the sense of the hypothesis -/
+example : 0 < (STab.zero 1).n ∧ IsStabilizerState (STab.zero 1) := by
+  refine ⟨by decide, S2G.good_of_check _ (by decide), ?_⟩
+  intro c hc i hi
+  have h0 := (hc 0 (by decide)).2
+  have hi0 : i = 0 := by have : i < 1 := hi; omega
+  subst hi0
+  simpa [S2G.XZ.ofSTab, STab.zero, PRow.Zq, parityTo] using h0
+
+/-- `|0⟩ ⊗ Bell` with negative signs: `⟨−Z₀, −X₁X₂, −Z₁Z₂⟩` (qubit 0 has no X component: the D40 shape) -/
+def ketBellNeg : STab :=
+  { n := 3, row := fun i =>
+      if i = 0 then ⟨fun _ => false, fun j => decide (j = 0), true, false⟩
+      else if i = 1 then ⟨fun j => decide (j = 1 ∨ j = 2), fun _ => false, true, false⟩
+      else ⟨fun _ => false, fun j => decide (j = 1 ∨ j = 2), true, false⟩ }
+
+/-- non-vacuity of `state_to_graph_complete` / `state_to_graph_correct`: `|0⟩ ⊗ Bell` with negative signs meets the hypotheses -/
+example : 0 < ketBellNeg.n ∧ IsStabilizerState ketBellNeg := by
+  refine ⟨by decide, S2G.good_of_check _ (by decide), ?_⟩
+  intro c hc
+  have h0 := (hc 0 (by decide)).2
+  have h1 := (hc 1 (by decide)).1
+  have h2 := (hc 1 (by decide)).2
+  simp [S2G.XZ.ofSTab, ketBellNeg, parityTo] at h0 h1 h2
+  intro i hi
+  have : i < 3 := hi
+  have h : i = 0 ∨ i = 1 ∨ i = 2 := by omega
+  rcases h with rfl | rfl | rfl
+  · exact h0
+  · exact h1
+  · exact h2
+set_option maxRecDepth 100000 in
+/-- … and the model converts it to the graph with the single edge `1 – 2` (vertex 0 isolated), gates `H 0, H 2`, then the sign-fixing
+    gates `Z 0, Z 1, Z 2` — the same answer as the Python -/
+example : (match S2G.stateToGraph ketBellNeg with
+    | .ok (adj, gates) => adj.bits == "000001010" && gates == [Gate.H 0, Gate.H 2, Gate.Z 0, Gate.Z 1, Gate.Z 2]
+    | .error _ => false) = true := by decide +kernel
+
 /-! ### graph states: the round trip, the tableau is a state, both constructions give the same state -/
 
 /-- the triangle graph -/
@@ -110,6 +305,50 @@ theorem graph_round_trip (n : Nat) (hn : 0 < n) (adj : Adj) (hsym : ∀ i j, i <
     (∃ g, S2G.stateToGraph (graphSTab n adj) = .ok (g, []) ∧ ∀ i j, i < n → j < n → g.f i j = adj i j) ∧
     (∃ g, S2G.stabilizerToGraph (graphSTab n adj) = .ok g ∧ ∀ i j, i < n → j < n → g.f i j = adj i j) :=
   ⟨stateToGraph_graph n hn adj hsym hirr, stabilizerToGraph_graph n hn adj hsym hirr⟩
+
+/-- **stabilizer → graph recovers `G` from `|G⟩` presented in ANY generating set** (every n ≥ 1, every simple graph, every real
+    commuting tableau `t` that generates the signed group of `|G⟩`): the modelled `stabilizer_to_graph(validate=True)` returns `G`
+    — `_graph_finder` returns (completeness), the graph it finds is `G` itself, and the closing comparison of the canonical forms
+    ("Input stabilizer is not a graph state") does not fire; the modelled `state_to_graph` returns `(G, [])`: no Hadamard, no
+    `P_dag`, no sign-fixing `Z`.  (`graph_round_trip` is the special case `t = graph_to_stabilizer(G)`.) -/
+theorem stabilizer_to_graph_complete (t : STab) (hn : 0 < t.n) (hg : t.Good) (adj : Adj)
+    (hsym : ∀ i j, i < t.n → j < t.n → adj i j = adj j i) (hirr : ∀ i, i < t.n → adj i i = false)
+    (hstate : ∀ p, t.Spn p ↔ (graphSTab t.n adj).Spn p) :
+    (∃ g, S2G.stabilizerToGraph t = .ok g ∧ ∀ i j, i < t.n → j < t.n → g.f i j = adj i j) ∧
+    (∃ g, S2G.stateToGraph t = .ok (g, []) ∧ ∀ i j, i < t.n → j < t.n → g.f i j = adj i j) :=
+  have hs : SpanEq t (graphSTab t.n adj) := ⟨rfl, fun p => (hstate p).1, fun p => (hstate p).2⟩
+  ⟨stabilizerToGraph_gauge t hn hg adj hsym hirr hs, stateToGraph_gauge t hn hg adj hsym hirr hs⟩
+
+/-- non-vacuity of `stabilizer_to_graph_complete`: the graph state of the edge `0 – 1` in the generating set `⟨Y₀Y₁, Z₀X₁⟩`
+    (`Y₀Y₁ = X₀Z₁ · Z₀X₁`), which is not the graph gauge -/
+def edgeYY : STab :=
+  { n := 2, row := fun i => if i = 0 then ⟨fun j => decide (j < 2), fun j => decide (j < 2), false, false⟩
+                            else ⟨fun j => decide (j = 1), fun j => decide (j = 0), false, false⟩ }
+def edge01 : Adj := fun i j => (i == 0 && j == 1) || (i == 1 && j == 0)
+example : 0 < edgeYY.n ∧ edgeYY.Good ∧ (∀ i j, i < 2 → j < 2 → edge01 i j = edge01 j i) ∧ (∀ i, i < 2 → edge01 i i = false) ∧
+    (∀ p, edgeYY.Spn p ↔ (graphSTab edgeYY.n edge01).Spn p) ∧ ¬ (∀ i, i < 2 → PRow.EqOn 2 (edgeYY.row i) ((graphSTab 2 edge01).row i)) := by
+  have hs : SpanEq edgeYY (graphSTab 2 edge01) := by
+    apply spanEq_of_gens edgeYY (graphSTab 2 edge01) rfl
+    · intro i hi
+      have : i = 0 ∨ i = 1 := by have : i < 2 := hi; omega
+      rcases this with rfl | rfl
+      · exact InSpan.eqv _ _ (InSpan.mul _ _ (spn_gen edgeYY 0 (by decide)) (spn_gen edgeYY 1 (by decide)))
+          (beqOn_eqOn _ _ _ (by decide))
+      · exact InSpan.eqv _ _ (spn_gen edgeYY 1 (by decide)) (beqOn_eqOn _ _ _ (by decide))
+    · intro i hi
+      have : i = 0 ∨ i = 1 := by have : i < 2 := hi; omega
+      rcases this with rfl | rfl
+      · exact InSpan.eqv _ _ (InSpan.mul _ _ (spn_gen (graphSTab 2 edge01) 0 (by decide)) (spn_gen (graphSTab 2 edge01) 1 (by decide)))
+          (beqOn_eqOn _ _ _ (by decide))
+      · exact InSpan.eqv _ _ (spn_gen (graphSTab 2 edge01) 1 (by decide)) (beqOn_eqOn _ _ _ (by decide))
+  refine ⟨by decide, S2G.good_of_check _ (by decide), fun i j hi hj => ?_, by decide, fun p => ⟨hs.sub p, hs.sup p⟩, ?_⟩
+  · have h1 : i = 0 ∨ i = 1 := by omega
+    have h2 : j = 0 ∨ j = 1 := by omega
+    rcases h1 with rfl | rfl <;> rcases h2 with rfl | rfl <;> decide
+  intro h
+  have := ((h 0 (by decide)).1 0 (by decide)).2
+  revert this
+  decide
 
 /-- **`graph_to_stabilizer(G)` is a stabilizer state** (every n, every symmetric `adj`): the generators are real and commute
     (`Good`), they are independent (an ordered product of distinct generators has trivial X part only if it is the empty
@@ -152,11 +391,73 @@ example : (∀ i j, i < 3 → j < 3 → tri i j = tri j i) ∧ (∀ i, i < 3 →
      have h2 : j = 0 ∨ j = 1 ∨ j = 2 := by omega
      rcases h1 with rfl | rfl | rfl <;> rcases h2 with rfl | rfl | rfl <;> decide)
 
-/- Not theorems of this development (kept visible): (1) `state_to_graph` succeeds on every stabilizer state — false on the current
-   code (known finding D40: the Hadamard-position heuristic `_position_finder` fails, e.g. on the one-qubit |0⟩, refuted above;
-   known finding D49: the float determinant is truncated); (2) the density-matrix side (negativity-based edge detection) —
-   compared numerically per input; (3) that the Python's float `det·inv % 2` equals the exact GF(2) inverse — not needed for
-   soundness (`state_to_graph_sound` quantifies over every candidate inverse), compared per input by the harness. -/
+/-! ### Hilbert-space reading (matrices on `2ⁿ` dimensions; the verified semantics of the C07 development)
+
+  `Hilbert.rho n T = ∏_i (1 + P_i)/2` is the density matrix of a stabilizer tableau, `Hilbert.circMat n c` the unitary of a gate list
+  (Kronecker products of the graphiq gate matrices: `C07.gate_matrices_are_kronecker_products`), `Hilbert.rho n (STab.zero n)` is
+  `|0…0⟩⟨0…0|` (`Hilbert.rho_zero`).  `graphStateMat n A := U |0…0⟩⟨0…0| U†` with `U` = `H` on every qubit, then `CZ` on every edge. -/
+
+/-- **graph → stabilizer produces the graph state, as a matrix** (every n, every simple graph): the density matrix of the tableau
+    `[I | A]` is `CZ_E H^{⊗n} |0…0⟩⟨0…0| H^{⊗n} CZ_E` -/
+theorem graph_to_stabilizer_is_graph_state (n : Nat) (adj : Adj) (hsym : ∀ i j, i < n → j < n → adj i j = adj j i)
+    (hirr : ∀ i, i < n → adj i i = false) : Hilbert.rho n (graphSTab n adj) = graphStateMat n adj :=
+  rho_graphSTab n adj hsym hirr
+
+/-- **`state_to_graph`, completeness + soundness on Hilbert space** (every n ≥ 1, every stabilizer state): the modelled conversion
+    returns `(G, gates)`, the gates are in range, and `U_gates ρ U_gates† = |G⟩⟨G|` — the returned single-qubit Clifford gates map the
+    input state exactly (not only up to a global phase: these are density matrices) onto that graph's state -/
+theorem state_to_graph_correct_hilbert (t : STab) (hn : 0 < t.n) (hstate : IsStabilizerState t) :
+    ∃ adj gates, S2G.stateToGraph t = .ok (adj, gates) ∧ (∀ g, g ∈ gates → g.WF t.n) ∧
+      Hilbert.circMat t.n gates * Hilbert.rho t.n t * (Hilbert.circMat t.n gates).conjTranspose = graphStateMat t.n adj.f :=
+  stateToGraph_hilbert t hn hstate.1 hstate.2
+
+/-! ### density matrix → graph: what is exact about the negativity-based edge detection
+
+  `_density_to_graph_pure` decides the pair `i < j` by projecting every other qubit onto `|0⟩` (`project_and_remove`), tracing it out and
+  comparing the negativity of the two-qubit state with 0.1.  The full statement `density_to_graph(|G⟩⟨G|) = G` is about dense complex
+  matrices and float eigenvalues and is NOT a theorem here (`density_to_graph_statement` is only described).  Proved: the two exact
+  halves below; cited (textbook): for a stabilizer state `ρ = 2⁻ⁿ Σ_{g ∈ S} g`, `⟨0_M| ρ |0_M⟩ = 2⁻ⁿ Σ g|_{i,j}` over the elements of `S`
+  without X or Y on `M` (`⟨0|X|0⟩ = ⟨0|Y|0⟩ = 0`) — `PairGroup` is that set — and the uniqueness of the Jordan decomposition
+  (negativity = trace of the negative part).  The harness compares `project_and_remove` and `negativity` of every pair of every graph on
+  ≤ 5 vertices with the two states below (1e-9). -/
+
+/-- **which two-qubit state the code looks at** (every n, every simple graph, every pair `i ≠ j`; group level): the restrictions to
+    `(i, j)` of the elements of the group of `|G⟩` that carry no X or Y on the other qubits form exactly the signed group of the two-vertex
+    graph state with an edge iff `adj i j` — `⟨X⊗Z, Z⊗X⟩` (edge) or `⟨X⊗I, I⊗X⟩` (no edge).
+    Missing for `density_to_graph(|G⟩⟨G|) = G`: the Hilbert-space identity quoted above and the float eigenvalue computation. -/
+theorem density_to_graph_pair_state_partial (n : Nat) (adj : Adj) (hsym : ∀ i j, i < n → j < n → adj i j = adj j i)
+    (hirr : ∀ i, i < n → adj i i = false) (i j : Nat) (hi : i < n) (hj : j < n) (hij : i ≠ j) (P : PRow) :
+    PairGroup (graphSTab n adj) i j P ↔ (graphSTab 2 (pairAdj (adj i j))).Spn P :=
+  pairGroup_graph n adj hsym hirr i j hi hj hij P
+
+theorem tri_symm : ∀ i j, i < 3 → j < 3 → tri i j = tri j i := by
+  intro i j hi hj
+  have h1 : i = 0 ∨ i = 1 ∨ i = 2 := by omega
+  have h2 : j = 0 ∨ j = 1 ∨ j = 2 := by omega
+  rcases h1 with rfl | rfl | rfl <;> rcases h2 with rfl | rfl | rfl <;> decide
+
+/-- non-vacuity: in the triangle, the pair `(0, 2)`: `X₀Z₁Z₂ · (no X/Y on qubit 1)` restricts to `X⊗Z`, a generator of the one-edge state -/
+example : PairGroup (graphSTab 3 tri) 0 2 ((graphSTab 2 (pairAdj true)).row 0) :=
+  (density_to_graph_pair_state_partial 3 tri tri_symm (by decide) 0 2 (by decide) (by decide) (by decide) _).mpr
+    (spn_gen (graphSTab 2 (pairAdj true)) 0 (by decide))
+
+/-- **the two possible pair states and their negativities** (exact 4×4 rational matrices): the stabilizer states of `⟨X⊗I, I⊗X⟩` and
+    `⟨X⊗Z, Z⊗X⟩` are `|++⟩⟨++|` and `CZ|++⟩⟨++|CZ`; the partial transpose (`bipartite_partial_transpose(rho, 2, 2, 0)`) of the first is
+    positive semidefinite (negative part `0`, negativity 0), that of the second has the Jordan decomposition `posPart − negPart` with
+    `tr negPart = 1/2` (negativity 1/2); the threshold 0.1 lies strictly between -/
+theorem density_to_graph_pair_negativity :
+    (Neg.rhoPlus = (1/4 : ℚ) • (1 + Neg.XI + Neg.IX + Neg.XI * Neg.IX) ∧
+     Neg.rhoEdge = (1/4 : ℚ) • (1 + Neg.XZ + Neg.ZX + Neg.XZ * Neg.ZX)) ∧
+    (Neg.Jordan (Neg.ptA Neg.rhoPlus) Neg.rhoPlus 0 ∧ Matrix.trace (0 : Neg.M4) = 0) ∧
+    (Neg.Jordan (Neg.ptA Neg.rhoEdge) Neg.posPart Neg.negPart ∧ Matrix.trace Neg.negPart = 1/2) ∧
+    ((0 : ℚ) ≤ 1/10 ∧ (1/10 : ℚ) < 1/2) :=
+  ⟨⟨Neg.rhoPlus_group_sum, Neg.rhoEdge_group_sum⟩, Neg.negativity_plus, Neg.negativity_edge, Neg.threshold_separates⟩
+
+/- Not theorems of this development (kept visible): (1) the density-matrix side beyond the two exact halves above (dense complex
+   matrices, purity test, float eigenvalues, the closing `np.allclose` validation) — compared numerically per input; (2) the
+   correspondence of the model with the Python source — exact comparison (graph, gate list, error class) on every generated input, not a
+   proof.  No float step is left in `state_to_graph` since /repo 70adac4 (`_gf2_inverse`); completeness was false before the repairs
+   86ab4f1 (D40), 8a43724 (D49) and 70adac4 (D51). -/
 
 /-! ### Non-vacuity: the triangle graph through both constructions -/
 example : (List.range 3).all (fun i => (List.range 3).all fun j =>
